@@ -16,8 +16,13 @@ VARIANTS = [
     silent("r3-filter-float-int-or-float",
            [(EM, "    if isinstance(value, float) and float(value) == int(value):", "    if isinstance(value, (int, float)) and float(value) == int(value):")], ("C10",)),
     # C10.9 / C09.8 table lookup
-    fire("r3-inline-statement-definition",
-         [(EM, "        macro = macros[gate.name]\n", "        macro = gate.gate_def if isinstance(gate.gate_def, Macro) else macros[gate.name]\n")],
+    # alone this is behaviour preserving now (every Macro-building pass re-links the calls) ...
+    silent("r3-inline-statement-definition",
+           [(EM, "        macro = macros[gate.name]\n", "        macro = gate.gate_def if isinstance(gate.gate_def, Macro) else macros[gate.name]\n")], ("C10", "C09")),
+    # ... but not when a pass rebuilds macros without re-linking
+    fire("r3-inline-statement-definition-with-unlinked-pass",
+         [(EM, "        macro = macros[gate.name]\n", "        macro = gate.gate_def if isinstance(gate.gate_def, Macro) else macros[gate.name]\n"),
+          ("src/jaqalpaq/core/algorithm/expand_subcircuits.py", "    def visit_GateStatement(self, gate):\n", "    def _unused_visit_GateStatement(self, gate):\n")],
          ("*", "replace_gate:inlined-macro-source"), ("C10", "C09")),
     silent("r3-inline-table-get",
            [(EM, "        macro = macros[gate.name]\n", "        macro = macros.get(gate.name)\n")], ("C10", "C09")),
